@@ -415,6 +415,116 @@ theorem payout_sameToks {w w' : World} {src : Nat} {a : Asset} {dst amt : Nat} (
   | native d => exact sameToks_of_tok_eq (bankSend_same h).2
   | token t => exact tokTransfer_sameToks h
 
+/-! ### cw20 allowance spending by a third party: `BurnFrom`, `DecreaseAllowance` -/
+
+theorem tokBurnFrom_ok {w w' : World} {t spender owner amt : Nat}
+    (h : tokBurnFrom w t spender owner amt = .ok w') :
+    ∃ T al, w.tok t = some T ∧ T.allow owner spender = some al ∧ amt ≤ al ∧ amt ≤ T.bal owner ∧ amt ≤ T.supply ∧
+      w' = setTok w t { T with
+        supply := T.supply - amt
+        bal := fun a => if a = owner then T.bal a - amt else T.bal a
+        allow := fun o s => if o = owner ∧ s = spender then some (al - amt) else T.allow o s } := by
+  unfold tokBurnFrom at h
+  split at h
+  · cases h
+  · rename_i T hT
+    split at h
+    · cases h
+    · rename_i al hal
+      split at h
+      · cases h
+      · split at h
+        · cases h
+        · split at h
+          · cases h
+          · injection h with h
+            exact ⟨T, al, hT, hal, by omega, by omega, by omega, h.symm⟩
+
+theorem tokDecAllow_ok {w w' : World} {t owner spender amt : Nat} (h : tokDecAllow w t owner spender amt = .ok w') :
+    ∃ T al, w.tok t = some T ∧ spender ≠ owner ∧ T.allow owner spender = some al ∧
+      w' = setTok w t { T with allow := fun o s =>
+        if o = owner ∧ s = spender then (if amt < al then some (al - amt) else none) else T.allow o s } := by
+  unfold tokDecAllow at h
+  split at h
+  · cases h
+  · rename_i T hT
+    split at h
+    · cases h
+    · split at h
+      · cases h
+      · rename_i al hal
+        injection h with h
+        exact ⟨T, al, hT, by assumption, hal, h.symm⟩
+
+theorem tokBurnFrom_same {w w' : World} {t sp o amt : Nat} (h : tokBurnFrom w t sp o amt = .ok w') :
+    Same w w' ∧ w'.bank = w.bank := by
+  obtain ⟨T, al, _, _, _, _, _, rfl⟩ := tokBurnFrom_ok h; exact setTok_same _ _ _
+theorem tokDecAllow_same {w w' : World} {t o s amt : Nat} (h : tokDecAllow w t o s amt = .ok w') :
+    Same w w' ∧ w'.bank = w.bank := by
+  obtain ⟨T, al, _, _, _, rfl⟩ := tokDecAllow_ok h; exact setTok_same _ _ _
+
+theorem bal_tokBurnFrom {w w' : World} {t sp o amt : Nat} (h : tokBurnFrom w t sp o amt = .ok w')
+    (a : Asset) (z : Nat) :
+    bal w' a z = if a = .token t ∧ z = o then bal w a z - amt else bal w a z := by
+  obtain ⟨T, al, hT, _, _, _, _, rfl⟩ := tokBurnFrom_ok h
+  cases a with
+  | native d => simp [bal, setTok]
+  | token t' =>
+    by_cases ht : t' = t
+    · subst ht; by_cases hz : z = o <;> simp [bal, setTok, hT, hz]
+    · simp [bal, setTok, ht]
+
+theorem bal_tokDecAllow {w w' : World} {t o s amt : Nat} (h : tokDecAllow w t o s amt = .ok w') (a : Asset) (z : Nat) :
+    bal w' a z = bal w a z := by
+  obtain ⟨T, al, hT, _, _, rfl⟩ := tokDecAllow_ok h
+  cases a with
+  | native d => simp [bal, setTok]
+  | token t' =>
+    by_cases ht : t' = t
+    · subst ht; simp [bal, setTok, hT]
+    · simp [bal, setTok, ht]
+
+theorem supply_tokBurnFrom {w w' : World} {t sp o amt : Nat} (h : tokBurnFrom w t sp o amt = .ok w') (u : Nat) :
+    supply w' u = if u = t then supply w u - amt else supply w u := by
+  obtain ⟨T, al, hT, _, _, _, _, rfl⟩ := tokBurnFrom_ok h
+  by_cases hu : u = t
+  · subst hu; simp [supply, setTok, hT]
+  · simp [supply, setTok, hu]
+
+theorem supply_tokDecAllow {w w' : World} {t o s amt : Nat} (h : tokDecAllow w t o s amt = .ok w') (u : Nat) :
+    supply w' u = supply w u := by
+  obtain ⟨T, al, hT, _, _, rfl⟩ := tokDecAllow_ok h
+  by_cases hu : u = t
+  · subst hu; simp [supply, setTok, hT]
+  · simp [supply, setTok, hu]
+
+theorem tokBurnFrom_sameToks {w w' : World} {t sp o amt : Nat} (h : tokBurnFrom w t sp o amt = .ok w') :
+    SameToks w w' := by
+  obtain ⟨T, al, hT, _, _, _, _, rfl⟩ := tokBurnFrom_ok h; exact sameToks_setTok hT
+theorem tokDecAllow_sameToks {w w' : World} {t o s amt : Nat} (h : tokDecAllow w t o s amt = .ok w') :
+    SameToks w w' := by
+  obtain ⟨T, al, hT, _, _, rfl⟩ := tokDecAllow_ok h; exact sameToks_setTok hT
+
+/-- `SendFrom` is a `TransferFrom` followed by the hook delivery, the receiver seeing the SPENDER as cw20 sender -/
+theorem tokSendFrom_ok {name : Asset → String} {w w' : World} {t sp o d amt : Nat} {hk : Hook} {out : Out}
+    (h : tokSendFrom name w t sp o d amt hk = .ok (w', out)) :
+    ∃ w1, tokTransferFrom w t sp o d amt = .ok w1 ∧
+      (((w.pair d).isSome ∧ pairReceive w1 d t sp amt hk = .ok (w', out)) ∨
+       ((w.pair d).isSome = false ∧ d = w.router ∧ out = .none ∧ routerReceive name w1 sp hk = .ok w')) := by
+  unfold tokSendFrom at h
+  split at h
+  · rename_i hp
+    simp only [bind_ok_iff] at h
+    obtain ⟨w1, h1, h2⟩ := h
+    exact ⟨w1, h1, .inl ⟨hp, h2⟩⟩
+  · rename_i hp
+    split at h
+    · rename_i hd
+      simp only [bind_ok_iff, pure_ok_iff, Prod.mk.injEq] at h
+      obtain ⟨w1, h1, w2, h2, rfl, rfl⟩ := h
+      exact ⟨w1, h1, .inr ⟨by simpa using hp, hd, rfl, h2⟩⟩
+    · cases h
+
 /-- `payout` of a single asset moves exactly `amt` (non-zero) from `src` to `dst` -/
 theorem bal_payout {w w' : World} {src : Nat} {a : Asset} {dst amt : Nat} (h : payout w src a dst amt = .ok w')
     (b : Asset) (z : Nat) :
